@@ -384,6 +384,20 @@ def gen_ops(rng, cfg):
             ops.append({"op": "write", "path": f"{nd}/{name}", "text": tree[path], "why": "duplicate"})
             if nd not in dirs:
                 dirs = dirs + [nd]
+        elif kind == "copy_as":
+            # a source file saved under a second name (byte-identical text, different module name); both get built
+            e = rng.choice(entries)
+            src = [p for p in files if p.split("/", 1)[-1] == e]
+            new = e[:-4] + "_copy.emb" if e.endswith(".emb") else e + "_copy"
+            if src and new not in entries:
+                d = src[0].split("/", 1)[0]
+                tree[f"{d}/{new}"] = tree[src[0]]
+                ops.append({"op": "write", "path": f"{d}/{new}", "text": tree[src[0]], "why": "copy_as"})
+                entries = entries + [new]
+                w = rng.randrange(len(workers))
+                for ent in (e, new):  # the original and the copy on the same worker, back to back
+                    ops.append({"op": "build", "w": w, "mode": rng.choices(["embossc", "split", "lib"], weights=cfg["mode_weights"])[0],
+                                "entry": ent, "dirs": list(dirs), "fresh_oracle": False, "w2": w})
         elif kind == "crash":
             k = rng.randrange(len(workers))
             h = rng.choice(hash_seeds) if rng.random() < 0.5 else workers[k]
@@ -488,6 +502,8 @@ class Farm:
             self.count("event.restore")
         elif why == "duplicate":
             self.count("fault.duplicate_in_other_dir")
+        elif why == "copy_as":
+            self.count("event.same_text_under_second_name")
 
     def op_delete(self, op):
         self._clear_path(op["path"])
